@@ -1,5 +1,6 @@
 import SafeNet.Model.ArgTable
 import SafeNet.Gen.Upgrade
+import SafeNet.Model.UnitFile
 /-!
 # C20 model: install-time and upgrade-time service definitions of an antnode service
 
@@ -168,5 +169,21 @@ def viaReplaceData : Path → Src
   | p => viaLiteral restartReplaceData p
 
 def replaceRecordOf (data : Valuation) : Valuation := through viaReplaceData data
+
+/-- the registry entry with the port of its recorded listen address (`get_antnode_port()`) made explicit -/
+def withListen (data : Valuation) (x : Option AStr) : Valuation :=
+  fun p => if p = ["~", "listenport"] then .opt x else data p
+
+/-! ### The unit file lines, rendered FROM the format strings read out of the locked `service-manager` crate -/
+
+/-- `writeln!(service, "ExecStart={program} {args}")` with `args = <strings>.join(" ")` -/
+def unitExecStartLine (program : String) (args : List String) : String :=
+  UnitFile.fmtApply (UnitFile.fmtPieces unitExecStartFormat) fun h =>
+    if h = "program" then program else if h = "args" then unitArgsSeparator.intercalate args else "{" ++ h ++ "}"
+
+/-- `writeln!(service, "Environment=\"{var}={val}\"")` -/
+def unitEnvironmentLine (var val : String) : String :=
+  UnitFile.fmtApply (UnitFile.fmtPieces unitEnvironmentFormat) fun h =>
+    if h = "var" then var else if h = "val" then val else "{" ++ h ++ "}"
 
 end SafeNet.Upgrade
